@@ -65,13 +65,13 @@ def gen_case(rng, idx, tier):
     if idx % 8 == 7:
         malformed = rng.choice(["badstate", "shortinfo", "noroute", "nc>18", "badsver", "iobuf_overlong",
                                 "dims0", "appname_nul", "bad_cpu_state", "bad_rt_code", "longinfo"])
-    sliver = (idx % 40 == 11)
+    sliver = (idx % 50 == 11)
     if sliver:
         k = rng.randint(1, 3)
         w, h = (255, k) if rng.random() < 0.6 else (k, 255)
     else:
-        w = rng.choice([1, 1, 2, 3, 4, 5, 6, 7, 8, 9, 10, 11, 12, 12])
-        h = rng.choice([1, 2, 3, 4, 5, 6, 7, 8, 8, 9, 10, 11, 12, 12])
+        w = rng.choice([1, 1, 2, 2, 3, 3, 4, 4, 5, 6, 7, 8, 8, 9, 10, 12])
+        h = rng.choice([1, 2, 2, 3, 4, 5, 6, 7, 7, 8, 8, 9, 9, 10, 12, 12])
         if tier == "thorough" and rng.random() < 0.05:
             h = rng.choice([15, 16, 17, 23, 24, 25])
     if malformed == "dims0":
@@ -210,7 +210,7 @@ def gen_case(rng, idx, tier):
             if xy in used and p in used[xy]["ps"]:
                 continue
             ctx = used.setdefault(xy, dict(vcpu_base=rng.choice([0xe5007000, 0x60000000 + 4 * rng.getrandbits(16)]),
-                                           iobuf_size=rng.choice([16, 40, 64, 100, 256, 700]), ps=set(),
+                                           iobuf_size=rng.choice([16, 40, 64, 100, 256]), ps=set(),
                                            next_addr=[0x60100000 + 4 * rng.getrandbits(10)],
                                            router=[rng.choice([0, 1, 0xffffffff, rng.getrandbits(32)])
                                                    for _ in range(16)]))
@@ -759,7 +759,7 @@ def run(chk, args):
                            "table lengths, sver, status, IOBUF, router counters; exact equality)" % len(idx), True)
         except RuntimeError as e:
             chk.oblige("correspondence:model-evaluates", False, str(e))
-    chk.coverage["rule"] = ("random machine states: P2P dimensions <= 12x12 (every 40th a 255xk / kx255 sliver, k <= 3), holes "
+    chk.coverage["rule"] = ("random machine states: P2P dimensions <= 12x12 (every 50th a 255xk / kx255 sliver, k <= 3), holes "
                             "(random / row / corner / many), boot chip anywhere, table slots outside the dimensions filled with "
                             "none / east / garbage, chips silent / refusing / flaky (answering on try 2..5 or never), core counts "
                             "0..18 with a common value, core-state patterns fresh / shared-busy / shared+own / random / all busy / "
